@@ -26,7 +26,7 @@ def feature_case(draw):
     deriv = draw(derivative_spec(min_steps=1, max_steps=9))
     return {"ul": ul, "deriv": deriv, "n_paths": draw(st.integers(1, 5)), "sim_seed": draw(seed_s),
             "barrier": draw(st.sampled_from([1.0, 1.01, 0.99, 0.04])), "listed": draw(st.booleans()),
-            "lin_seed": draw(seed_s)}
+            "lin_seed": draw(seed_s), "extra": draw(st.sampled_from([0, 0, 1, 3]))}
 
 
 def all_features(case, deriv, dtype):
@@ -66,13 +66,13 @@ def check_features(case, ctx):
     torch.manual_seed(case["sim_seed"])
     with ctx.sut("C03/simulate"):
         deriv.simulate(n_paths=case["n_paths"])
-    N, Tn = ul.spot.shape
     eps = EPS[dtype_name(dtype)]
     feats, lin = all_features(case, deriv, dtype)
-    maturity = (Tn - 1) * ul.dt
     bound = [(name, f.of(deriv)) for name, f in feats]
 
     def compare_all(rnd):
+        N, Tn = ul.spot.shape
+        maturity = (Tn - 1) * ul.dt
         for name, f in bound:
             with ctx.sut("C03/feature/" + name):
                 full = f.get(None)
@@ -123,9 +123,17 @@ def check_features(case, ctx):
         compare_all(0)
         # second simulation of the same derivative object with the same number of paths (a new training batch)
         torch.manual_seed(case["sim_seed"] + 1)
+        extra = case.get("extra", 0)
         with ctx.sut("C03/simulate"):
-            deriv.simulate(n_paths=case["n_paths"])
+            if extra:
+                # the underlier is simulated by its owner over a longer horizon than this derivative's maturity
+                # (an underlier shared with a longer-dated contract): both forms of every feature see the same series
+                ul.simulate(n_paths=case["n_paths"], time_horizon=deriv.maturity + extra * ul.dt)
+            else:
+                deriv.simulate(n_paths=case["n_paths"])
         compare_all(1)
+        ctx.cls("longer-horizon:" + str(bool(extra)))
+    Tn = ul.spot.shape[1]
     ctx.nontrivial(Tn >= 3)
     ctx.cls("deriv:" + case["deriv"]["type"], "ul:" + case["ul"]["type"], "T:%s" % ("1-2" if Tn < 3 else "3+"))
 
